@@ -13,6 +13,12 @@ use std::io::BufRead;
 
 use super::{Deserializable, DeserializationError};
 
+// CONSTANTS
+// ================================================================================================
+
+/// Maximum number of bytes pre-allocated by [ByteReader::read_many()] before any element is read.
+const MAX_PREALLOC_BYTES: usize = 1 << 16;
+
 // BYTE READER TRAIT
 // ================================================================================================
 
@@ -191,7 +197,10 @@ pub trait ByteReader {
         Self: Sized,
         D: Deserializable,
     {
-        let mut result = Vec::with_capacity(num_elements);
+        // `num_elements` may come from untrusted input; cap the up-front allocation and let the
+        // vector grow as elements are actually read
+        let max_prealloc = MAX_PREALLOC_BYTES / core::cmp::max(core::mem::size_of::<D>(), 1);
+        let mut result = Vec::with_capacity(core::cmp::min(num_elements, max_prealloc));
         for _ in 0..num_elements {
             let element = D::read_from(self)?;
             result.push(element)
@@ -667,7 +676,9 @@ impl<'a> ByteReader for SliceReader<'a> {
     }
 
     fn check_eor(&self, num_bytes: usize) -> Result<(), DeserializationError> {
-        if self.pos + num_bytes > self.source.len() {
+        // `self.pos` never exceeds the length of the source; comparing against the number of
+        // remaining bytes avoids an overflow when `num_bytes` comes from untrusted input
+        if num_bytes > self.source.len() - self.pos {
             return Err(DeserializationError::UnexpectedEOF);
         }
         Ok(())
